@@ -52,6 +52,10 @@ def sexp(n):
         if tag == "agg":
             aggs = " ".join(f"({fn} {'distinct' if d else 'all'} {sexp(arg)} {sexp(f) if f is not None else 'none'})" for fn, d, arg, f in n[2])
             return "(agg (" + " ".join(sexp(e) for e in n[1]) + ") (" + aggs + ") " + sexp(n[3]) + ")"
+        if tag == "aggsets":
+            aggs = " ".join(f"({fn} {'distinct' if d else 'all'} {sexp(arg)} {sexp(f) if f is not None else 'none'})" for fn, d, arg, f in n[3])
+            sets = " ".join("(" + " ".join(str(i) for i in st) + ")" for st in n[2])
+            return "(aggsets (" + " ".join(sexp(e) for e in n[1]) + ") (" + sets + ") (" + aggs + ") " + sexp(n[4]) + ")"
         if tag == "sort":
             ks = " ".join(f"({sexp(e)} {'desc' if d else 'asc'} {'first' if nf else 'last'})" for e, d, nf in n[1])
             return f"(sort ({ks}) {sexp(n[2])})"
@@ -149,6 +153,8 @@ class Renderer:
             return self.width(q[3]) if q[1] in ("semi", "anti") else self.width(q[3]) + self.width(q[4])
         if t == "agg":
             return len(q[1]) + len(q[2])
+        if t == "aggsets":
+            return len(q[1]) + len(q[3])
         if t == "union":
             return self.width(q[2])
         if t in ("sort", "limit"):
@@ -212,6 +218,23 @@ class Renderer:
             if gs:
                 s += " GROUP BY " + ", ".join(gs)
             return s
+        if t == "aggsets":
+            a = self.alias()
+            w = self.width(q[4])
+            cols = [f"{a}.c{i}" for i in range(w)]
+            gs = [self.expr(e, cols, outer) for e in q[1]]
+            items = [f"{g} AS c{i}" for i, g in enumerate(gs)]
+            for j, (fn, dist, arg, filt) in enumerate(q[3]):
+                call = "count(*)" if fn == "count_star" else f"{fn}({'DISTINCT ' if dist else ''}{self.expr(arg, cols, outer)})"
+                items.append(f"{call} AS c{len(gs) + j}")
+            kind = q[5] if len(q) > 5 else "sets"
+            if kind == "rollup":
+                grp = "ROLLUP (" + ", ".join(gs) + ")"
+            elif kind == "cube":
+                grp = "CUBE (" + ", ".join(gs) + ")"
+            else:
+                grp = "GROUPING SETS (" + ", ".join("(" + ", ".join(gs[i] for i in st) + ")" for st in q[2]) + ")"
+            return "SELECT " + ", ".join(items) + f" FROM ({self.query(q[4], outer)}) AS {a} GROUP BY {grp}"
         if t == "distinct":
             a = self.alias()
             w = self.width(q[1])
@@ -277,15 +300,16 @@ def gen_db(rng, ntables=3, max_rows=30, big=False):
     return db
 
 
-def setup_sql(db, rng=None, inserts=1):
-    """CREATE TEMP TABLE + INSERT statements (rows split over `inserts` statements)."""
+def setup_sql(db, rng=None, inserts=1, cap=400):
+    """CREATE TEMP TABLE + INSERT statements: rows split over `inserts` statements, at most `cap` rows each
+    (a stored chunk larger than the session's batch_size panics in scans: known finding F36)."""
     r = Renderer({k: v[0] for k, v in db.items()})
     stmts = []
     for name, (types, rows) in db.items():
         stmts.append(f"CREATE TEMP TABLE {name} (" + ", ".join(f"k{i} {SQLTY[t]}" for i, t in enumerate(types)) + ")")
         if rows:
             per = max(1, (len(rows) + inserts - 1) // inserts)
-            per = min(per, 400)
+            per = max(1, min(per, cap))
             for i in range(0, len(rows), per):
                 stmts.append(f"INSERT INTO {name} VALUES " + ", ".join("(" + ", ".join(r.lit(v, t) for v, t in zip(row, types)) + ")" for row in rows[i:i + per]))
     return stmts
@@ -428,6 +452,15 @@ class Gen:
                 else:
                     arg, t = self.expr(ty, BOOL, 1, outer), BOOL
                 aggs.append((fn, dist, arg, filt)); at.append(t)
+            if "rollup" in self.f and len(groups) >= 1 and rng.chance(1, 2) and all(g[0] == "col" for g in groups) and len({g[1] for g in groups}) == len(groups):
+                n = len(groups)
+                kind = rng.pick(["rollup", "cube"] if n <= 2 else ["rollup"])
+                if kind == "rollup":
+                    sets = [list(range(k)) for k in range(n, -1, -1)]
+                else:
+                    sets = [[i for i in range(n) if (m >> (n - 1 - i)) & 1] for m in range(2 ** n - 1, -1, -1)]
+                aggs2 = [(fn, False, arg, None) for fn, d, arg, f in aggs]
+                return ("aggsets", groups, sets, aggs2, q, kind), gt + at
             return ("agg", groups, aggs, q), gt + at
         if c < 15 and "distinct" in self.f:
             q, ty = self.query(depth - 1, outer)
@@ -478,3 +511,35 @@ def top_sort(rng, q, types):
     cols = rng.shuffle(range(len(types)))[:1 + rng.below(len(types))]
     keys = [(("col", i), rng.chance(1, 2), rng.chance(1, 2)) for i in cols]
     return ("sort", keys, q), keys
+
+
+# ----------------------------------------------------------------------------- known-defect exclusions
+
+def _conjuncts(e):
+    if isinstance(e, tuple) and e and e[0] == "and":
+        return _conjuncts(e[1]) + _conjuncts(e[2])
+    return [e]
+
+
+def _disjuncts(e):
+    if isinstance(e, tuple) and e and e[0] == "or":
+        return _disjuncts(e[1]) + _disjuncts(e[2])
+    return [e]
+
+
+def has_or_absorption(t):
+    """True if the term contains `X OR (X AND Y)`-shaped predicates: all OR branches share a conjunct and one
+    branch consists only of shared conjuncts. The optimizer's distributive-OR rewrite turns these into
+    `X AND Y` (known finding F35, asserted by an existing unit test); such queries are not generated."""
+    if isinstance(t, tuple):
+        if t and t[0] == "or":
+            branches = [[sexp(c) for c in _conjuncts(b)] for b in _disjuncts(t)]
+            common = set(branches[0])
+            for b in branches[1:]:
+                common &= set(b)
+            if common and any(set(b) <= common for b in branches):
+                return True
+        return any(has_or_absorption(x) for x in t[1:] if isinstance(x, (tuple, list)))
+    if isinstance(t, list):
+        return any(has_or_absorption(x) for x in t)
+    return False
